@@ -42,7 +42,11 @@ Vals3 == <<JInt(FALSE, <<1>>), JInt(FALSE, <<4,2>>), JStr(<<120>>)>>
 \* and after them ("a" < "s" < "signatures" < "t" < "unsigned" < "v")
 SignKeys == {KSignatures, KUnsigned, <<97>>, <<115>>, <<116>>, <<118>>}
 SignVals == <<JObj(<<M(KSignatures, JInt(FALSE, <<1>>)), M(<<97>>, JNull)>>), JInt(FALSE, <<4,2>>), JStr(<<120>>)>>
-Parts == {"leaf", "obj1", "obj2", "obj3", "nest", "arr", "sign"}
+\* an object key that a JSON library may treat specially (serde_json's marker for embedded raw JSON): to the specification it
+\* is a key like any other, and the string next to it is a string
+TokenKey == <<36,115,101,114,100,101,95,106,115,111,110,58,58,112,114,105,118,97,116,101,58,58,82,97,119,86,97,108,117,101>>
+TokenTexts == {<<91,49,44,50,93>>, <<55>>, <<34,120,34>>, <<123,34,97,34,58,49,125>>}            \* [1,2]   7   "x"   {"a":1}
+Parts == {"leaf", "obj1", "obj2", "obj3", "nest", "arr", "sign", "token"}
 VARIABLES phase, part, v
 Init == phase = 0 /\ part \in Parts /\ v = JNull
 Next ==
@@ -58,6 +62,11 @@ Next ==
                            v' = JObj(<<M(<<122>>, JArr(<<inner, JArr(<<>>), JObj(<<>>)>>)), M(k1, inner)>>)
      \/ part = "sign" /\ \E n \in 0..3, k1 \in SignKeys, k2 \in SignKeys, k3 \in SignKeys :
                            v' = JObj(SubSeq(<<M(k1, SignVals[1]), M(k2, SignVals[2]), M(k3, SignVals[3])>>, 1, n))
+     \/ part = "token" /\ \E t \in TokenTexts, shape \in 1..4 :
+                           v' = CASE shape = 1 -> JObj(<<M(TokenKey, JStr(t))>>)
+                                  [] shape = 2 -> JObj(<<M(<<98>>, JInt(FALSE, <<2>>)), M(TokenKey, JStr(t))>>)
+                                  [] shape = 3 -> JObj(<<M(<<99,111,110,116,101,110,116>>, JObj(<<M(TokenKey, JStr(t))>>)), M(<<116>>, JStr(<<120>>))>>)
+                                  [] OTHER -> JArr(<<JObj(<<M(TokenKey, JStr(t))>>), JInt(FALSE, <<1>>)>>)
      \/ part = "arr" /\ \E x \in SmallLeaves, y \in SmallLeaves : v' \in {JArr(<<>>), JArr(<<x>>), JArr(<<x, y>>), JArr(<<JArr(<<x>>), y>>)}
 
 \* model theorems
